@@ -224,7 +224,8 @@ func (g *cleanGen) account() (*jwt.AccountClaims, *signer) {
 		}
 	}
 	if g.rng.Intn(2) == 0 {
-		ac.Trace = &jwt.MsgTrace{Destination: "trace.dest", Sampling: g.rng.Intn(101)}
+		// (a token that merely CONTAINS a wildcard character is a literal token: such a destination has no wildcards)
+		ac.Trace = &jwt.MsgTrace{Destination: jwt.Subject(g.pick("trace.dest", "t", "trace.a*b.dest", "trace.dest>", "*trace.dest", "t.>x", "a**.b")), Sampling: g.rng.Intn(101)}
 	}
 	ac.Info = g.info()
 	issuer := g.kr.by["operator"]
@@ -713,13 +714,20 @@ func allInjections() []injection {
 		}),
 		acctInj("L1 tiered and flat JetStream limits", func(g *cleanGen, ac *jwt.AccountClaims) bool {
 			ac.Limits.JetStreamTieredLimits = jwt.JetStreamTieredLimits{"R1": {DiskStorage: 5}}
-			switch g.rng.Intn(3) {
+			switch g.rng.Intn(6) {
 			case 0:
 				ac.Limits.JetStreamLimits = jwt.JetStreamLimits{MemoryStorage: 1}
 			case 1:
 				ac.Limits.JetStreamLimits = jwt.JetStreamLimits{MaxBytesRequired: true}
-			default:
+			case 2:
 				ac.Limits.JetStreamLimits = jwt.JetStreamLimits{DiskMaxStreamBytes: -1}
+			// flat limits that say "no limit" everywhere are flat limits too (anything but all zeros conflicts with tiers)
+			case 3:
+				ac.Limits.JetStreamLimits = jwt.JetStreamLimits{MemoryStorage: -1, DiskStorage: -1, Streams: -1, Consumer: -1}
+			case 4:
+				ac.Limits.JetStreamLimits = jwt.JetStreamLimits{MemoryStorage: -1, DiskStorage: -1, Streams: -1, Consumer: -1, MaxAckPending: -1, MemoryMaxStreamBytes: -1, DiskMaxStreamBytes: -1}
+			default:
+				ac.Limits.JetStreamLimits = jwt.JetStreamLimits{MemoryStorage: -1, DiskStorage: -1, Streams: -1, Consumer: -1, MaxAckPending: 0, MemoryMaxStreamBytes: -5}
 			}
 			return true
 		}),
